@@ -55,6 +55,8 @@ def plan(tier, seed):
             specs.append({"name": f"req-{client}-{i}", "kind": "request", "client": client, "lens": chunk})
     for client in ("sync", "async"):
         specs.append({"name": f"req-wide-{client}", "kind": "request_wide", "client": client, "n": 60 if tier == "quick" else 1500})
+    for client in ("sync", "async"):
+        specs.append({"name": f"two-clients-{client}", "kind": "two_clients", "client": client, "n": 40 if tier == "quick" else 600})
     for i in range(4):
         specs.append({"name": f"reply-{i}", "kind": "reply", "n": 250 if tier == "quick" else 8000})
     specs.append({"name": "reply-ntlm", "kind": "reply_ntlm", "n": 25 if tier == "quick" else 500})
@@ -250,6 +252,93 @@ def run_request(spec, rec: Recorder):
         loop.close()
 
 
+def run_two_clients(spec, rec: Recorder):
+    """Two (or three) connections alive at the same time whose servers negotiated differently (header signing on / off,
+    different signature sizes): what one connection negotiated must not leak into the framing of another.  Binds and requests
+    of the connections are interleaved in every order."""
+    from dpapi_ng import _client as cl
+
+    rng = common.rng_for(ID, spec)
+    kind = spec["client"]
+    vt_obj = cl._VERIFICATION_TRAILER
+    vt_ref = rrpc.enc_vt(online.EXPECTED_VT)
+    loop = asyncio.new_event_loop()
+    asyncio.set_event_loop(loop)
+
+    def new_conn(sign: bool, sig: int):
+        ctx = tr.ScriptedContext((b"C1", b"C2"), 2, sig)
+        server = tr.ScriptedContext((), 0, sig)
+        state = {"n": 0, "reqs": []}
+
+        def handler(data):
+            i = state["n"]
+            state["n"] += 1
+            if i == 0:
+                return [ack(rrpc.BIND_ACK, sign, b"S1", tr.call_id_of(data))]
+            if i == 1:
+                return [ack(rrpc.ALTER_CONTEXT_RESP, sign, b"", tr.call_id_of(data))]
+            state["reqs"].append(data)
+            body = b"\x22" * 16
+            header = rrpc.header(rrpc.RESPONSE, FL, 24 + len(body) + 8 + sig, sig, tr.call_id_of(data)) + struct.pack("<IHBB", len(body), 0, 0, 0)
+            trailer = struct.pack("<BBBBI", 10, 6, 0, 0, 0)
+            st = BT.sign_only if sign else BT.data_readonly
+            res = server.wrap_iov([(st, header), body, (st, trailer), BT.header], encrypt=True, qop=None)
+            return [header + res.buffers[1].data + trailer + res.buffers[3].data]
+
+        transport = tr.FakeSocket(handler) if kind == "sync" else tr.FakeStream(handler, eof_after_each_reply=False)
+        return dict(ctx=ctx, state=state, sign=sign, sig=sig, client=make_client(kind, transport, ctx))
+
+    def do(coro_or_none):
+        if kind == "async":
+            return loop.run_until_complete(asyncio.wait_for(coro_or_none, 30))
+        return coro_or_none
+
+    try:
+        for case in range(spec["n"]):
+            k = rng.choice([2, 2, 3])
+            conns = [new_conn(sign=bool((case + j) % 2) if j < 2 else rng.random() < 0.5, sig=rng.choice(SIGS)) for j in range(k)]
+            # a random interleaving of: bind of each connection, then 1..3 requests of each connection
+            ops = [("bind", j) for j in range(k)]
+            rng.shuffle(ops)
+            reqs = [("req", j) for j in range(k) for _ in range(rng.randrange(1, 4))]
+            rng.shuffle(reqs)
+            # a later bind of another connection may also fall between two requests of an earlier one
+            late = ops.pop() if rng.random() < 0.6 else None
+            seq = ops + reqs
+            if late:
+                seq.insert(rng.randrange(len(ops), len(seq) + 1), late)
+            bound = set()
+            wit = {"kind": "two-clients", "client": kind, "signs": [c["sign"] for c in conns], "sigs": [c["sig"] for c in conns], "sequence": [list(x) for x in seq], "case": case, "shard": spec["name"]}
+            try:
+                for op, j in seq:
+                    c = conns[j]
+                    if op == "bind":
+                        if j not in bound:
+                            do(c["client"].bind(cl._ISD_KEY_CONTEXTS))
+                            bound.add(j)
+                        continue
+                    if j not in bound:
+                        do(c["client"].bind(cl._ISD_KEY_CONTEXTS))
+                        bound.add(j)
+                    stub = rng.randbytes(rng.choice([0, 1, 5, 16, 33, 100]))
+                    use_vt = rng.random() < 0.5
+                    c["ctx"].log.clear()
+                    before = len(c["state"]["reqs"])
+                    do(c["client"].request(0, 0, stub, verification_trailer=vt_obj if use_vt else None))
+                    if len(c["state"]["reqs"]) != before + 1:
+                        rec.violation("request-not-sent", "no request PDU reached the transport", wit)
+                        continue
+                    # the server-side sequence number of this connection = number of requests it has seen
+                    verify_request(rec, c["state"]["reqs"][-1], c["ctx"], stub, vt_ref if use_vt else None, c["sig"], c["sign"], dict(wit, connection=j), seq=before)
+                    rec.count("two_client_requests_verified")
+            except Exception as e:
+                rec.violation("request-exception", f"{type(e).__name__}: {e} ({wit})", wit)
+            rec.case(("two-clients", kind, case))
+        rec.sample({"kind": "several live connections with different negotiations", "client": kind, "cases": spec["n"], "last": wit})
+    finally:
+        loop.close()
+
+
 def run_request_wide(spec, rec: Recorder):
     """Outside the dense sweep: large stubs (around 1 KiB, 4 KiB, the 5840 max fragment, tens of KiB), other signature
     sizes, and SEVERAL requests on one connection (per-connection state: call ids, cached sizes, sequence numbers)."""
@@ -425,7 +514,7 @@ def run_reply_ntlm(spec, rec: Recorder):
 def run_shard(spec, rec: Recorder):
     if not common.calibrate(rec, "rpc", "gkdi", "cms"):
         return
-    {"request": run_request, "request_wide": run_request_wide, "reply": run_reply, "reply_ntlm": run_reply_ntlm}[spec["kind"]](spec, rec)
+    {"request": run_request, "request_wide": run_request_wide, "two_clients": run_two_clients, "reply": run_reply, "reply_ntlm": run_reply_ntlm}[spec["kind"]](spec, rec)
 
 
 def replay(body, rec: Recorder):
